@@ -33,6 +33,7 @@ import itertools
 import numpy as np
 
 from vf import c15_ref as ref
+from vf import core
 
 PID = 'C15'
 LEVEL = 'model_checking'
@@ -50,7 +51,9 @@ ASSUMPTIONS = [
     'cells per dimension >= 1 (a header with cpd <= 0 has no meaning; cpd = 0 raises ZeroDivisionError in the kernel and is not judged)',
     'the empty stream is an array of shape (0, 9); an empty Python list (shape (0,)) is not a record stream',
     'rounding tolerance: 6 eps x (|cell-centre term| + boxsize/2 + |offset|) for positions, 6 eps x |v| for velocities, eps of the requested float type',
-    'a particle before any header decodes to NaN in all six outputs (compared as is-NaN)',
+    'a particle before any header has no reference cell: either all six outputs are NaN (compared as is-NaN) or the call refuses the stream with ValueError/AssertionError; both accepted',
+    'an output that was not requested (False) comes back as 0 or None',
+    'arrays preallocated in the other float type than float_dtype are held to float32 rounding and not to bitwise equality',
     'read_asdf integration (file -> table) belongs to C16; here the kernel is driven through unpack_pack9 with the same argument forms',
 ]
 CHUNK = 1
@@ -147,6 +150,15 @@ def worker_init():
 DT = dict(f4=np.float32, f8=np.float64)
 
 
+def orphan_particle(data):
+    """does a particle record precede the first header record of the stream?"""
+    for rec in np.asarray(data).reshape(-1, 9):
+        if rec[0] == 0xFF:
+            return False
+        return True
+    return False
+
+
 def call(data, box, velz, dt, pmode='ret', vmode='ret'):
     """one execution of unpack_pack9.  modes: ret (None -> returned), off (False), pre (ndarray with guard rows),
     col (astropy Column of a Table, as read_asdf does).  Returns dict(pos, vel, n, problems)."""
@@ -189,7 +201,15 @@ def call(data, box, velz, dt, pmode='ret', vmode='ret'):
             args[name] = t[name]
     try:
         r = _FN(data, box, velz, float_dtype=dtype, **args)
-    except Exception as e:      # the property promises a decode for every stream in the alphabet
+    except Exception as e:
+        st = core.stale_reason(e)
+        if st:
+            raise core.Stale(st)
+        if orphan_particle(data) and isinstance(e, (ValueError, AssertionError)):
+            # a particle record before any header has no reference cell; the property says nothing about such streams:
+            # NaN rows (checked by the callers when a result comes back) or a refusal are both acceptable
+            return dict(pos=None, vel=None, n=None, raised=True, rejected=True, problems=[])
+        # the property promises a decode for every other stream in the alphabet
         return dict(pos=None, vel=None, n=None, raised=True,
                     problems=[('raised:' + type(e).__name__, f'unpack_pack9 raised {type(e).__name__}: {str(e)[:300]}')])
     if not (isinstance(r, tuple) and len(r) == 2):
@@ -206,8 +226,9 @@ def call(data, box, velz, dt, pmode='ret', vmode='ret'):
                 ns.append(len(val))
         elif mode == 'off':
             out[name] = None
-            if not (isinstance(val, (int, np.integer)) and val == 0):
-                probs.append(('return-shape', f'{name}=False: returned {val!r:.100} instead of 0'))
+            # nothing was requested, so nothing meaningful comes back: 0 (today) or None are both "no result"
+            if not (val is None or (isinstance(val, (int, np.integer)) and not isinstance(val, bool) and val == 0)):
+                probs.append(('return-shape', f'{name}=False: returned {val!r:.100} for an output that was not requested (expected 0 or None)'))
         else:
             if not isinstance(val, (int, np.integer)) or not 0 <= val <= N:
                 probs.append(('return-shape', f'{name} preallocated: returned {val!r:.100} instead of the particle count'))
@@ -374,8 +395,15 @@ def run_configs(data, box, velz, exp, configs, label, sigp):
         r = call(d, box, velz, dt, pm, vm)
         res[(tag, dt)] = r
         eps = float(np.finfo(DT[dt]).eps)
+        # arrays preallocated in the other float type: the values may legitimately be computed in either precision
+        # ("float type beyond rounding"), so they are held to the coarser rounding and are not part of the bitwise group
+        other = 'preo' in (pm, vm)
+        if other:
+            eps = float(np.finfo(np.float32).eps)
         for s, m in r['problems']:
             probs.append(dict(sig=f'{sigp}:{tag}:{s}', msg=f'{label} [{tag} {dt}]: {m}'))
+        if r.get('rejected'):
+            continue
         if r['n'] is None and (pm, vm) != ('off', 'off'):
             if not r['problems']:
                 probs.append(dict(sig=f'{sigp}:{tag}:count', msg=f'{label} [{tag} {dt}]: no particle count obtained'))
@@ -391,12 +419,14 @@ def run_configs(data, box, velz, exp, configs, label, sigp):
                 nanrow = bool(exp['nohdr'][bad[0]]) if bad[0] >= 0 else False
                 probs.append(dict(sig=f'{sigp}:{tag}:{what}' + (':nan' if nanrow else ''), msg=f'{label} [{tag} {dt}]: {bad[1]}'))
             # however requested, the same float type must give the same bits
+            if other:
+                continue
             b = base.setdefault((what, dt), (tag, r[what]))
             if b[0] != tag and not bits_equal(b[1], r[what]):
                 probs.append(dict(sig=f'{sigp}:select:{what}', msg=f'{label}: {what} [{tag} {dt}] differs bitwise from [{b[0]} {dt}]'))
     # float32 vs float64 to float32 rounding
     a, b = res.get(('both', 'f4')), res.get(('both', 'f8'))
-    if a and b and a['n'] is not None and a['n'] == b['n'] == exp['n']:
+    if a and b and a['n'] is not None and a['n'] == b['n'] == exp['n'] and not (a.get('rejected') or b.get('rejected')):
         for what, mk in (('pos', 'posmag'), ('vel', 'velmag')):
             if a[what] is None or b[what] is None:
                 continue
@@ -423,6 +453,8 @@ def run_sm(c):
     absstates = set()
     traces = 0
     trans = 0
+    rejected = 0
+    nanrows = 0
     sample = None
     for seq in c['seqs']:
         data = sm_stream(seq)
@@ -455,16 +487,20 @@ def run_sm(c):
         hdr = next((ch for ch in reversed(seq) if ch in 'abc'), '-')
         assert (st is None) == (hdr == '-') and (st is None or st[0] == SM[hdr]['cpd'])
         absstates.add(f'{hdr}:{n}')
-        if not p:
+        rej = sum(1 for r in list(res.values()) + [r0] if r.get('rejected'))
+        if rej:
+            rejected += 1
+        elif not p:
             traces += 1
+            nanrows += nan_rows(seq)
         if n:
             nt.append('sm:' + seq)
-        if seq == 'xayb' + 'x' * (len(seq) - 4) and len(seq) >= 5 and not p:
+        if seq == 'xayb' + 'x' * (len(seq) - 4) and len(seq) >= 5 and not p and not rej:
             sample = dict(layer='sm', sequence=seq, pos=res[('both', 'f4')]['pos'].tolist(), ref_pos=pos.tolist(),
                           vel=res[('both', 'f4')]['vel'].tolist(), ref_vel=vel.tolist())
     return dict(problems=probs, evals=evals, nt=nt, states=len(c['seqs']), transitions=trans, traces=traces,
                 extra=dict(sm_histories=len(c['seqs']), sm_abstract_states=sorted(absstates),
-                           sm_nan_rows_checked=sum(nan_rows(seq) for seq in c['seqs'])),
+                           sm_nan_rows_checked=nanrows, sm_orphan_particle_streams_refused_by_code=rejected),
                 sample=sample)
 
 
@@ -538,7 +574,14 @@ def run_conc(c):
     for seqs in (('axy', 'byx'), ('axayb', 'bx'), ('x', 'ay')):
         streams = [sm_stream(q) for q in seqs]
         for kw in (dict(), dict(float_dtype=np.float64), dict(velout=False)):
-            res, conf = twin.concurrent_calls(rt, [(lambda d=d: f(d, BOX, VELZ, **kw)) for d in streams])
+            def one(d, kw=kw):
+                try:
+                    return f(d, BOX, VELZ, **kw)
+                except (ValueError, AssertionError):
+                    if orphan_particle(d):      # particle before any header: a refusal is acceptable (see call())
+                        return None
+                    raise
+            res, conf = twin.concurrent_calls(rt, [(lambda d=d: one(d)) for d in streams])
             n += 1
             for cf in conf[:1]:
                 probs.append(dict(sig='conc:shared-module-state', msg=f'two concurrent unpack_pack9 calls ({seqs}, {kw}) both access {cf[0]} element {cf[2]} ({cf[1]})'))
